@@ -218,7 +218,20 @@ func (w *World) MutateRoots(r *gen.Rand) {
 	n := r.Range(0, 3)
 	for i := 0; i < n; i++ {
 		insts := w.instList()
-		switch r.Intn(11) {
+		switch r.Intn(12) {
+		case 11:
+			// the same relative path in another root: two repositories that would get the same name
+			if len(insts) > 0 && len(w.Roots) > 1 {
+				in := gen.Pick(r, insts)
+				root, rel := w.relOf(in.Path)
+				other := gen.Pick(r, w.Roots)
+				if rel != "." && rel != "" && other != root {
+					p := filepath.Join(other, rel)
+					if _, err := os.Lstat(p); err != nil && !w.insideRepo(p) {
+						w.place(r, p, in.Bare)
+					}
+				}
+			}
 		case 0:
 			w.addRepo(r)
 		case 1:
